@@ -773,6 +773,22 @@ def search(reg, unit, seed, budget=2000, deadline_s=20):
     rnd = random.Random(f"{seed}:{unit['name']}")
     t0 = time.time()
     tried = valid = 0
+    ns = getattr(c, "native_search", None)
+    if ns is not None:
+        # whole-unit generator + reference (file-level units: the inputs are generated texts)
+        for _ in range(budget):
+            if time.time() - t0 > deadline_s:
+                break
+            tried += 1
+            try:
+                fail = ns(rnd)
+            except Exception as e:
+                fail = {"clause": "native search harness error (not a verdict)", "observed": repr(e)[:300], "harness_error": True}
+                return None
+            if fail is not None:
+                fail["tried"] = tried
+                return fail
+        return None
     for _ in range(budget):
         if time.time() - t0 > deadline_s:
             break
